@@ -250,6 +250,34 @@ class Ctx:
             raise Infra("TLC rc=%d for %s\n%s" % (r.rc, name, r.tail))
         return r
 
+    def prove(self, module, apalache_args=None, timeout=600):
+        """Unbounded part of a specification: TLAPS proves the theorems of spec/<module>.tla, Apalache checks its inductive
+        invariant over unbounded integers.  A failure is a failure of the specification work (exit 2), never a violation."""
+        d = os.path.join(self.work, "prove-" + module)
+        shutil.rmtree(d, ignore_errors=True)
+        os.makedirs(d)
+        for root in (SPEC, os.path.join(SPEC, "lib")):
+            for f in os.listdir(root):
+                if f.endswith(".tla"):
+                    shutil.copyfile(os.path.join(root, f), os.path.join(d, f))
+        t0 = time.time()
+        p = subprocess.run(["timeout", str(timeout), "tlapm", "--threads", "8", module + ".tla"], cwd=d, stdout=subprocess.PIPE, stderr=subprocess.STDOUT, text=True)
+        m = re.search(r"All (\d+) obligations? proved", p.stdout)
+        if p.returncode != 0 or not m:
+            raise Infra("TLAPS did not prove %s:\n%s" % (module, p.stdout[-1500:]))
+        res = {"tlaps_obligations": int(m.group(1)), "tlaps_s": round(time.time() - t0, 1)}
+        if apalache_args:
+            t1 = time.time()
+            p = subprocess.run(["timeout", str(timeout), "apalache-mc", "check"] + list(apalache_args) + [module + ".tla"], cwd=d,
+                               stdout=subprocess.PIPE, stderr=subprocess.STDOUT, text=True)
+            if p.returncode != 0 or "EXITCODE: OK" not in p.stdout:
+                raise Infra("Apalache did not confirm the inductive invariant of %s:\n%s" % (module, p.stdout[-1500:]))
+            res["apalache_s"] = round(time.time() - t1, 1)
+        log("[prove] %s: %d obligations (TLAPS %.1fs)%s" % (module, res["tlaps_obligations"], res["tlaps_s"],
+                                                            ", inductive invariant confirmed by Apalache %.1fs" % res["apalache_s"] if "apalache_s" in res else ""))
+        self.engines["prove:" + module] = res
+        return res
+
     def mc(self, module, cfg, **kw):
         """E1: design check; any invariant violation in the model is an infrastructure failure
         (the model is wrong or the design is), never a VIOLATION of the code."""
